@@ -68,6 +68,7 @@ struct CamScript
     int fail_at = -1;      // get_frame returns Device_Err at this call index of the run
     bool fail_start = false;
     bool stop_yields = false;
+    float stop_ms = 5.0f;  // how long a yielding stop takes (virtual time)
     int vary = 0;          // >0: frame k is up to `vary` pixels narrower than configured (a pure function of k): frame sizes mix
 };
 
